@@ -170,6 +170,7 @@ func genC06(seed uint64, tier string, outdir string) *Report {
 				}
 			}
 			c06Check(rep, c, start)
+			l2QueryMonitor(rep, c, "C06")
 			rep.Ops += len(c.Ops)
 			rep.CountCase(strings.Join(opsCoq(c.Ops), "\n"), succ && rej)
 			if idx == total/2 {
@@ -236,6 +237,9 @@ func genC06(seed uint64, tier string, outdir string) *Report {
 			case 3: // executor list change by the authority (or somebody else)
 				ps, _ := e.K.GetParams(e.Ctx)
 				np := &L2Params{Admin: ps.Admin, MaxV: uint64(ps.MaxValidators), Hist: uint64(ps.HistoricalEntries), MinGas: c.Params.MinGas, Whitelist: []string{}, HookGas: ps.HookMaxGas}
+				if r.Chance(25) {
+					np.HookGas = []uint64{0, 1000000}[r.Intn(2)] // hooks switched off / on again
+				}
 				n := 1 + r.Intn(3)
 				for j := 0; j < n; j++ {
 					np.Execs = append(np.Execs, e.User(uint64(1+r.Intn(6))).Str)
@@ -283,6 +287,7 @@ func genC06(seed uint64, tier string, outdir string) *Report {
 		nv := len(rep.Violations)
 		c06Check(rep, c, 1)
 		shrinkL2Violations(rep, nv, c, l2Replayer{Fresh: fresh, Monitor: func(rp *Report, cc *L2Case, _ Ov) { c06Check(rp, cc, 1) }})
+		l2QueryMonitor(rep, c, "C06")
 		rep.Ops += len(c.Ops)
 		rep.CountCase(strings.Join(opsCoq(c.Ops), "\n"), succ && rej)
 		if k == 0 {
@@ -296,7 +301,17 @@ func genC06(seed uint64, tier string, outdir string) *Report {
 		for variant := 0; variant < 2; variant++ {
 			caseID++
 			kk, vv, cid := k, variant, caseID
-			fresh := func() *L2Scenario { return NewL2Scenario(seed*977+uint64(10*kk+vv), cid, false) }
+			fresh := func() *L2Scenario {
+				sc := NewL2Scenario(seed*977+uint64(10*kk+vv), cid, false)
+				if kk%2 == 0 {
+					// a genesis that wrote 0 into the L1 cursor (types.NewGenesisState leaves it 0 and
+					// ValidateGenesis does not check it); the other scripts start from a never-written cursor
+					if err := sc.Env.K.SetNextL1Sequence(sc.Env.Ctx, 0); err != nil {
+						panic(err)
+					}
+				}
+				return sc
+			}
 			sc := fresh()
 			e, c := sc.Env, sc.Case
 			A, B := e.User(1).Str, e.User(2).Str
@@ -323,6 +338,7 @@ func genC06(seed uint64, tier string, outdir string) *Report {
 			c06Check(rep, c, 1)
 			c06EventCheck(rep, c)
 			shrinkL2Violations(rep, nv, c, l2Replayer{Fresh: fresh, Monitor: func(rp *Report, cc *L2Case, _ Ov) { c06Check(rp, cc, 1); c06EventCheck(rp, cc) }})
+			l2QueryMonitor(rep, c, "C06")
 			rep.Ops += len(c.Ops)
 			rep.CountCase(strings.Join(opsCoq(c.Ops), "\n"), k > 0)
 			rep.Hist("script:first-bridge-info-after-deposits")
@@ -380,6 +396,7 @@ func c06Reentrancy(rep *Report, seed uint64, tier string) {
 					nv := len(rep.Violations)
 					c06EventCheck(rep, c)
 					shrinkL2Violations(rep, nv, c, l2Replayer{Fresh: fresh, Monitor: func(rp *Report, cc *L2Case, _ Ov) { c06EventCheck(rp, cc) }})
+					l2QueryMonitor(rep, c, "C06")
 					_ = initObs
 					rep.Ops += len(c.Ops)
 					rep.CountCase(strings.Join(opsCoq(c.Ops), "\n"), true)
